@@ -579,6 +579,96 @@ def make_dataset(rng, T=None, naming=None, nfam=None, P=None, maxleaves=8, int_i
     D.meta = dict(singletons=nsingle, undeclared_species=undeclared, int_ids=int_ids)
     return D
 
+def deep_chain_dataset(rng, depth=None):
+    """a duplication whose copies are long chains of single-child HOGs: caterpillar tree of the given depth, one
+    family at the root with a 2-3 copy duplication on the inner branch, every copy surviving (almost) only in the
+    deepest cherry, all levels spelled out.  Exercises exporters / re-loaders on chains of >= 3 single-child levels."""
+    d = depth or rng.randint(3, 7)
+    T = ('I0', (('LA', ()), ('LB', ())))
+    for k in range(1, d + 1):
+        T = ('I%d' % k, (T, ('L%d' % k, ())))
+    ids = Ids(False)
+    def chain(k):
+        if k == 0:
+            return ('grp', True, ids.hog() if rng.random() < 0.7 else None, rng.random() < 0.5,
+                    [('one', 0, ('g', ids.gene(rng), None)), ('one', 1, ('g', ids.gene(rng), None))])
+        subs = [('one', 0, chain(k - 1))]
+        if rng.random() < 0.12:
+            subs.append(('one', 1, ('g', ids.gene(rng), None)))
+        return ('grp', True, ids.hog() if rng.random() < 0.7 else None, rng.random() < 0.5, subs)
+    subs = [('dup', 0, None, [chain(d - 1) for _ in range(rng.choice([2, 2, 3]))])]
+    if rng.random() < 0.5:
+        subs.append(('one', 1, ('g', ids.gene(rng), None)))
+    l = ('grp', True, '1', rng.random() < 0.5, subs)
+    D = Dataset(T, rng.choice(['own', 'synth']))
+    D.families = [((), l, '1')]
+    per_leaf = {}
+    for g, t in gene_taxa((), l):
+        per_leaf.setdefault(t, []).append(g)
+    for t in [p for p in paths(T) if not sub(T, p)[1]]:
+        D.species.append((sub(T, t)[0], [(g, rand_xrefs(rng, g)) for g in per_leaf.get(t, [])]))
+    D.groups = encode(T, D.naming, (), l)
+    D.base_groups = list(D.groups)
+    D.meta = dict(singletons=0, undeclared_species=0, int_ids=False, deep_chain=d)
+    return D
+
+def wild_dataset(rng, maxleaves=7):
+    """a file that is NOT the encoding of a history: groups built clade by clade but with members, sub-groups and
+    paralogGroups taken from anywhere below the clade (several levels skipped, several paralogGroups at one elided
+    level, paralogGroups with one member, groups of one species ...).  Many of these are rejected by the loader or
+    load into hierarchies no property speaks about; they are used to compare the loader with its model (the model
+    claims to follow the code on EVERY input) and, where the model's result is well-formed, to check C02 literally."""
+    T = rand_tree(rng, maxleaves=maxleaves, cat=0.3)
+    naming = rng.choice(['own', 'synth'])
+    D = Dataset(T, naming)
+    ids = Ids(False)
+    per_leaf = {}
+    def leaves_under(q):
+        return [p for p in paths(T) if p[:len(q)] == q and not sub(T, p)[1]]
+    def internal_under(q):
+        return [p for p in paths(T) if p[:len(q)] == q and len(p) > len(q) and sub(T, p)[1]]
+    def ref_in(q):
+        t = rng.choice(leaves_under(q))
+        g = ids.gene(rng)
+        per_leaf.setdefault(t, []).append(g)
+        return ('ref', g, None)
+    def og(q, depth, hid=None):
+        items = []
+        n = rng.choice([1, 2, 2, 3, 3, 4])
+        for _ in range(n):
+            items.append(item(q, depth))
+        return ('og', hid if hid is not None else (ids.hog() if rng.random() < 0.6 else None), None, items)
+    def item(q, depth):
+        r = rng.random()
+        sub_int = internal_under(q)
+        if r < 0.45 or depth <= 0:
+            return ref_in(q)
+        if r < 0.75 and sub_int:
+            return og(rng.choice(sub_int), depth - 1)
+        if r < 0.8:
+            return og(q, depth - 1)                     # a sub-group spanning the same clade
+        # a paralogGroup: members from one sub-clade (mostly) or from anywhere below q
+        where = rng.choice(sub_int) if sub_int and rng.random() < 0.7 else q
+        k = rng.choice([1, 2, 2, 2, 3])
+        mem = []
+        for _ in range(k):
+            w_int = internal_under(where)
+            if w_int and rng.random() < 0.4 and depth > 0:
+                mem.append(og(rng.choice(w_int + [where]) if where != q else rng.choice(w_int), depth - 1))
+            else:
+                mem.append(ref_in(where))
+        return ('pg', None, mem)
+    internal = [p for p in paths(T) if sub(T, p)[1]]
+    for f in range(rng.choice([1, 1, 2, 3])):
+        q = () if rng.random() < 0.5 else rng.choice(internal)
+        D.groups.append(og(q, rng.choice([1, 2, 3]), hid=str(f + 1)))
+    for t in [p for p in paths(T) if not sub(T, p)[1]]:
+        D.species.append((sub(T, t)[0], [(g, rand_xrefs(rng, g)) for g in per_leaf.get(t, [])]))
+    D.base_groups = list(D.groups)
+    D.families = []
+    D.meta = dict(wild=True, singletons=0, undeclared_species=0, int_ids=False)
+    return D
+
 # ---------------------------------------------------------------- re-spellings on raw elements
 
 def nest_paralogs(rng, elems, prob=0.7):
